@@ -241,3 +241,62 @@ func normalize(t *Term) *Term {
 	}
 	return n
 }
+
+// altSet expands every φ / alt node of a term into the set of φ-free terms it can stand for (bounded), so that
+// `Transform(φ(a,b))` and `alt(Transform(a),Transform(b))` — the same function written with one or two returns —
+// compare equal. A comma-ok assertion's value `#0(assert<T>(x))` is the same value as `assert<T>(x)`.
+func altSet(t *Term) map[string]bool {
+	var exp func(t *Term) []*Term
+	exp = func(t *Term) []*Term {
+		if t == nil {
+			return []*Term{nil}
+		}
+		if t.Op == "phi" || t.Op == "alt" {
+			var out []*Term
+			for _, a := range t.Args {
+				out = append(out, exp(a)...)
+			}
+			return out
+		}
+		if t.Op == "#0" && len(t.Args) == 1 && strings.HasPrefix(t.Args[0].Op, "assert<") {
+			return exp(t.Args[0])
+		}
+		combos := [][]*Term{{}}
+		for _, a := range t.Args {
+			var next [][]*Term
+			for _, alt := range exp(a) {
+				for _, cmb := range combos {
+					if len(next) > 256 {
+						break
+					}
+					next = append(next, append(append([]*Term{}, cmb...), alt))
+				}
+			}
+			combos = next
+		}
+		var out []*Term
+		for _, cmb := range combos {
+			out = append(out, &Term{Op: t.Op, Args: cmb})
+		}
+		return out
+	}
+	set := map[string]bool{}
+	for _, x := range exp(t) {
+		set[x.String()] = true
+	}
+	return set
+}
+
+// termIs: the term stands for exactly the given alternatives.
+func termIs(t *Term, wants ...string) bool {
+	got := altSet(t)
+	if len(got) != len(wants) {
+		return false
+	}
+	for _, w := range wants {
+		if !got[w] {
+			return false
+		}
+	}
+	return true
+}
